@@ -161,8 +161,26 @@ class ReaderModel:
                     return view
                 return aio.Awaitable("readexactly", run)
             return Builtin("reader.readexactly", readexactly)
-        if name in ("read", "readline", "readuntil"):
-            # any other way of reading depends on segmentation: the frame/effect obligation of C13
+        if name == "read":
+            # read(n) returns *up to* n bytes, as many as the current segment holds: segmentation dependent.
+            def read(n=-1):
+                def run(it2):
+                    w.event("read-other", self, name)
+                    aio.suspend(it2, ("read", self, n))
+                    if is_sym(n) or n < 0 or n > 32:
+                        raise Unsupported("StreamReader.read with a large / symbolic size")
+                    k = w.nondet(n + 1, "bytes available in this segment")
+                    view = ABytes(self.stream, self.cursor, k, self.label)
+                    items = []
+                    for i in range(k):
+                        b = view.at(i)
+                        it2.path.assume(And(b >= 0, b <= 255))
+                        items.append(b)
+                    self.cursor = self.cursor + k
+                    return BytesVal(items)
+                return aio.Awaitable("read", run)
+            return Builtin("reader.read", read)
+        if name in ("readline", "readuntil"):
             def other(*a, **k):
                 w.event("read-other", self, name)
                 raise Unsupported(f"StreamReader.{name} (segmentation dependent) is outside the contract")
